@@ -114,10 +114,6 @@ Section Compile.
 Hypothesis Hcodec : codec_statement.
 Hypothesis Htotal : compile_total_statement.
 
-(* the part of the invariant that `compile` reads and writes *)
-Definition minv (ty : N) (E : store) (b : builder) : Prop :=
-  store_ok E /\ bytes_ok ty E b /\ reg_ok E (b_reg b).
-
 Lemma compile_ok ty E b n b' r :
   minv ty E b -> node_ok E n ->
   NODE_MAX * (len E + 1) + 100 < U64 ->
